@@ -6,6 +6,7 @@ library's own calls of fit_dtype during to_array / collapsed / INDX save)."""
 import itertools
 import tempfile
 
+import sys
 import numpy
 
 from .. import monitors
@@ -323,6 +324,41 @@ def dense_output_dtype_case(ctx, case):
                                                                  sorted(set(must)), exp2), case)
 
 
+def collapsed_output_dtype(ctx, idx, prec, form):
+    """The dtype of the per-row output array collapsed() fills (observed at the numpy.full call that creates it, the
+    precedence's last value being its fill) against the narrowest dtype for [min(precedence), max(precedence)];
+    the precedence is handed over as a list, a tuple or an integer ndarray - same values, same answer."""
+    import catii.iindexes as ii
+
+    seen = []
+    real_full = numpy.full
+
+    def full(shape, fill_value, dtype=None, *a, **k):
+        out = real_full(shape, fill_value, dtype, *a, **k)
+        fr = sys._getframe(1)
+        if fr.f_code.co_name == "collapsed" and fr.f_code.co_filename == getattr(ii, "__file__", None):
+            seen.append((numpy.shape(out), fill_value, out.dtype))
+        return out
+
+    numpy.full = full
+    try:
+        arg = {"list": list, "tuple": tuple}.get(form, lambda p: numpy.array(p, dtype={"int64": numpy.int64, "int32": numpy.int32,
+                                                                                      "uint64": numpy.uint64}[form]))(prec)
+        idx.collapsed(arg)
+    finally:
+        numpy.full = real_full
+    hits = [dt for shp, fill, dt in seen if shp == (idx.shape[0],) and int(fill) == int(prec[-1])]
+    if not hits:
+        ctx.count("consequence:collapsed_output_array_not_observed")
+        return
+    ctx.count("consequence:collapsed_output_dtype_observed:precedence_as_" + form)
+    exp = expected(min(prec), max(prec))
+    if exp is not None and hits[0] != exp:
+        ctx.violation("insitu:collapsed-output-dtype:%s:precedence-as-%s" % ("too-wide" if hits[0].itemsize > exp.itemsize else "wrong", form),
+                      "collapsed(%s %r) fills a %s output array; the narrowest dtype of the right signedness for its values is %s"
+                      % (form, list(prec), hits[0], exp), {"kind": "collapsed_output_dtype", "precedence": [int(p) for p in prec], "form": form})
+
+
 def insitu_one(ctx, rng, i, k, idx, a2, vals, signed, io_):
     if i % 10 == 3:
         collapse_many_columns(ctx, rng)
@@ -338,6 +374,9 @@ def insitu_one(ctx, rng, i, k, idx, a2, vals, signed, io_):
             col = idx.collapsed(prec)                   # fit_dtype(max, min) and fit_dtype(numcols)
             got = set(int(v) for v in col.to_array(dtype=numpy.int64).ravel().tolist()) if max(abs(v) for v in vals) < 2 ** 63 else set()
             ctx.count("consequence:collapsed_output_checked")
+            if len(idx.shape) == 2 and max(abs(v) for v in prec) < 2 ** 31:
+                forms = ["list", "tuple", "int64", "int32"] + (["uint64"] if min(prec) >= 0 else [])
+                collapsed_output_dtype(ctx, idx, prec, forms[i % len(forms)])
             if not got <= set(prec):
                 ctx.violation("insitu:collapsed-wrapped", "collapsed(%r) produced values %r that are not in the precedence list: the chosen output dtype wrapped them" % (prec, sorted(got - set(prec))[:4]), {"a": a2, "precedence": prec})
             # the same index again after its set of codes has been changed IN PLACE (same number of entries,
@@ -421,6 +460,10 @@ def replay(ctx, case):
         collapse_many_columns_case(ctx, int(case["ncols"]), [int(p) for p in case["precedence"]])
     elif kind == "dense_output_dtype":
         dense_output_dtype_case(ctx, case)
+    elif kind == "collapsed_output_dtype":
+        prec = [int(p) for p in case["precedence"]]
+        a2 = numpy.array([[prec[0], prec[-1]], [prec[-1], prec[0]], [prec[0], prec[0]]], dtype=numpy.int64)
+        collapsed_output_dtype(ctx, dense_to_index(a2, prec[0]), prec, case["form"])
     elif kind == "indx_words":
         indx_words_case(ctx, io_, [tuple(k) for k in case["keys"]], int(case["common"]))
     elif "a" in case:
